@@ -12,7 +12,7 @@ static const char *const AKN[AK__COUNT] = {"schar", "uchar", "short", "ushort", 
     "u16string", "u32string", "u8string", "string_view", "wstring_view", "u16string_view", "u32string_view", "u8string_view", "null_cstr", "raw_bytes"};
 const char *arg_kind_name(int k) { return (k >= 0 && k < AK__COUNT) ? AKN[k] : "?"; }
 static const char *const SKN[SK__COUNT] = {"printf(FILE*)", "writef<char>", "writef<wchar_t>", "writef<char16_t>", "writef<char32_t>", "ostream<<", "wostream<<",
-    "u16ostream<<", "u32ostream<<", "istream>>", "wistream>>", "format_latin_1"};
+    "u16ostream<<", "u32ostream<<", "istream>>", "wistream>>", "format_latin_1", "printf(stdout)"};
 const char *sink_name(int k) { return (k >= 0 && k < SK__COUNT) ? SKN[k] : "?"; }
 static const char *const PCN[PC__COUNT] = {"overflow_inside_padding_run", "overflow_between_surrogate_units", "eof_exactly_at_token_end", "refill_boundary_inside_multibyte_char",
     "flush_or_overflow_inside_call", "chunk_not_self_contained_generated", "invalid_token_rejected", "skipped_char16_sink_output_contains_U+FFFF"};
@@ -379,7 +379,8 @@ RunResult run_plan(const Plan &p, Stats *st, std::vector<uint64_t> *nt_pairs) {
         bool flushed_inside = false, fault_fired = false;
         unsigned capclass = 0;
         switch (k.kind % SK__COUNT) {
-        case SK_COOKIE: {
+        case SK_COOKIE: case SK_STDOUT: {
+            const bool to_stdout = (k.kind % SK__COUNT) == SK_STDOUT;      // ST::printf(fmt, ...) with the process's stdout redirected to the cookie
             Cookie ck; ck.fail_at = k.fault;
             cookie_io_functions_t io = {nullptr, cookie_write, nullptr, nullptr};
             FILE *f = fopencookie(&ck, "w", io);
@@ -388,7 +389,10 @@ RunResult run_plan(const Plan &p, Stats *st, std::vector<uint64_t> *nt_pairs) {
             setvbuf(f, mode == _IONBF ? nullptr : ubuf.data(), mode, mode == _IONBF ? 0 : bsz);
             capclass = mode == _IONBF ? 0 : bsz <= 8 ? 1 : bsz <= 64 ? 2 : 3;
             unsigned calls_inside = 0;
-            Ex ex = guarded(budget, st, [&] { with_args(args, [&](const auto &...a) { ST::printf(f, fmt.c_str(), a...); }); calls_inside = ck.calls; });
+            FILE *saved_stdout = stdout;
+            if (to_stdout) { fflush(stdout); stdout = f; }
+            Ex ex = guarded(budget, st, [&] { with_args(args, [&](const auto &...a) { if (to_stdout) ST::printf(fmt.c_str(), a...); else ST::printf(f, fmt.c_str(), a...); }); calls_inside = ck.calls; });
+            if (to_stdout) stdout = saved_stdout;
             fflush(f); fclose(f);
             flushed_inside = calls_inside > 0; fault_fired = ck.failed;
             if (!accepted) break;
@@ -521,7 +525,7 @@ RunResult run_plan(const Plan &p, Stats *st, std::vector<uint64_t> *nt_pairs) {
             break;
         }
         }
-        if (fault_fired && st) { st->sink_faults_fired++; unsigned kk = k.kind % SK__COUNT; st->fault_kinds[kk == SK_COOKIE ? 0 : (kk == SK_EXT8 || kk == SK_EXTW) ? 2 : 1]++; }
+        if (fault_fired && st) { st->sink_faults_fired++; unsigned kk = k.kind % SK__COUNT; st->fault_kinds[(kk == SK_COOKIE || kk == SK_STDOUT) ? 0 : (kk == SK_EXT8 || kk == SK_EXTW) ? 2 : 1]++; }
         if (flushed_inside && st) st->probe[PC_FLUSH_INSIDE_CALL]++;
         simrt::Hash ph; ph.str(shape.c_str()); ph.u8(k.kind); ph.u8((uint8_t)capclass); ph.u8(k.fault ? 1 : 0);
         H.u64(ph.h);
@@ -593,7 +597,7 @@ Plan gen_plan(uint64_t runseed) {
     for (unsigned i = 0; i < nsink; i++) {
         SinkCfg k; k.kind = (uint8_t)r.below(SK__COUNT);
         switch (k.kind) {
-        case SK_COOKIE: k.a = r.below(3); k.b = r.below(4) ? BUFS[r.below(10)] : 1 + r.below(4096); break;
+        case SK_COOKIE: case SK_STDOUT: k.a = r.below(3); k.b = r.below(4) ? BUFS[r.below(10)] : 1 + r.below(4096); break;
         case SK_EXT8: case SK_EXTW: k.a = r.below(16); k.b = r.below(1 << 13); if (!faults) k.b &= ~2u; break;
         default: k.a = r.below(4) ? r.below(9) : r.below(65); k.b = r.below(2); break;
         }
